@@ -11,6 +11,7 @@ import KiraModel.Exec.SuiteModSys
 import KiraModel.Exec.SuiteClock
 import KiraModel.Exec.SuiteSpatial
 import KiraModel.Exec.SuiteWav
+import KiraModel.Exec.SuiteStatic
 
 open K.Exec K.Exec.Clock K.Exec.Wav
 
@@ -37,6 +38,9 @@ def suiteOf (name : String) : Option Suite :=
   | "clocktear" => some { σ := TearState, init := {}, step := tearStep }
   | "spatial" => some { σ := Option (K.Scene Float), init := none, step := spatialStep }
   | "wav" => some { σ := WavState, init := {}, step := wavStep }
+  | "transport" => some { σ := Option K.Transport, init := none, step := Static.transportStep }
+  | "psm" => some { σ := Static.PsmSuiteState, init := {}, step := Static.psmStep }
+  | "static" | "static_ood" => some { σ := Static.StaticSuiteState, init := {}, step := Static.staticStep }
   | _ => none
 
 def tokens (line : String) : List String :=
